@@ -139,6 +139,16 @@ class NpShim:
             return self._np.isclose(a, b, rtol=rtol, atol=atol, equal_nan=equal_nan)
         return abs(a - b) <= atol + rtol * abs(b)
 
+    def equal(self, a, b):
+        if isinstance(a, E.SymReal) or isinstance(b, E.SymReal):
+            return a == b
+        return self._np.equal(a, b)
+
+    def abs(self, a):  # noqa: A003
+        if isinstance(a, E.SymReal):
+            return abs(a)
+        return self._np.abs(a)
+
 
 _INSTALLED = {}
 
@@ -164,6 +174,7 @@ def install(stub_str=True, validate_lp=False):
         P.sympy = sympy_shim.SympyShim()
         sympy_shim.install_hook()
         S.np = NpShim(S.np)
+        P.np = NpShim(P.np)  # scalar np.isclose / np.equal on proxies (arrays go to the real numpy)
     P.linprog = lp.make_linprog(_INSTALLED["linprog"], validate=validate_lp)
     if stub_str == "list-only":
         # hashes go through PolyhedralTerm.__str__ (kept real); error messages format whole lists
